@@ -195,7 +195,7 @@ def check_props_file(prop: str):
                 output=(out + err)[-4000:], n_answers=len(answers))
 
 
-def run_coqchk(prop: str, timeout=2400):
+def run_coqchk(prop: str, timeout=4200):
     """thorough tier: re-check the property's compiled theorem file and everything it depends on
     with the independent checker coqchk, and collect the axioms it reports (-o).
     Returns dict(ok, axioms=[...], type_in_type, unsafe_fix, assumed_positive, seconds, output)."""
